@@ -15,6 +15,7 @@ package c10
 import (
 	"context"
 	"fmt"
+	"os"
 	"reflect"
 	"sync/atomic"
 	"time"
@@ -99,9 +100,20 @@ func run(r *evid.Run) {
 	}
 	r.Set("max_nodes", maxN)
 
-	ck.familyGraphs(maxN)
-	ck.familyPlants(maxN)
-	ck.familyCLI()
+	// C10_ONLY=graphs|plants|cli runs one family (development aid; the run is then marked incomplete)
+	only := os.Getenv("C10_ONLY")
+	if only != "" {
+		r.Incomplete("C10_ONLY=" + only + ": only one family was run")
+	}
+	if only == "" || only == "graphs" {
+		ck.familyGraphs(maxN)
+	}
+	if only == "" || only == "plants" {
+		ck.familyPlants(maxN)
+	}
+	if only == "" || only == "cli" {
+		ck.familyCLI()
+	}
 
 	c := &ck.c
 	r.Set("workspaces_opened", c.workspaces.Load())
